@@ -307,6 +307,17 @@ structure Info where
   source : Str := []
 deriving DecidableEq, Repr
 
+/-- The key under which a module-file template is registered (`ModuleInfo._modules[module_filename]`) and by
+    which `_translate_module_warnings` recognises its warnings: the module path `Template.__init__` computed –
+    `os.path.abspath` of it when `madeAbsolute`.  `abs` stands for `os.path.abspath` in the working directory
+    of the moment. -/
+def registryKey (madeAbsolute : Bool) (abs : Str → Str) (modulePath : Str) : Str :=
+  if madeAbsolute then abs modulePath else modulePath
+
+/-- the file name CPython reports for code of a module loaded from `modulePath` (frames of a traceback,
+    compile warnings, `warnings.warn`): the absolute path -/
+def reportedFilename (abs : Str → Str) (modulePath : Str) : Str := abs modulePath
+
 /-- `template_lines = [line_ for line_ in template_source.split("\n")]` -/
 def linesOf (source : Str) : List Str := splitNL source
 
